@@ -342,6 +342,14 @@ pub fn loc_meta(a: &[u8], b: &[u8]) -> String {
         (Err(_), Ok(y)) => format!("DIFF ERR vs {}", y),
     }
 }
+pub fn ext_meta(a: &[u8], b: &[u8]) -> String {
+    match (ExtensionsMap::from_bytes(a), ExtensionsMap::from_bytes(b)) {
+        (Err(_), Err(_)) => "BOTH-ERR".into(),
+        (Ok(x), Ok(y)) => if x == y && x.to_string() == y.to_string() { "SAME".into() } else { format!("DIFF {} vs {}", x, y) },
+        (Ok(x), Err(_)) => format!("DIFF {} vs ERR", x),
+        (Err(_), Ok(y)) => format!("DIFF ERR vs {}", y),
+    }
+}
 pub fn li_meta(a: &[u8], b: &[u8]) -> String {
     match (LanguageIdentifier::from_bytes(a), LanguageIdentifier::from_bytes(b)) {
         (Err(_), Err(_)) => "BOTH-ERR".into(),
@@ -623,6 +631,14 @@ pub fn run(out: &mut Out, tier: &str, rng: &mut Rng) {
         let cut = |s: &[u8]| -> Vec<u8> { let parts: Vec<&[u8]> = s.split(|c| *c == b'-' || *c == b'_').collect(); let p = parts.iter().position(|t| t.len() == 1).unwrap_or(parts.len()); gen::join(&parts[..p], 0) };
         let (la, lb) = (cut(&a), cut(&b));
         out.case("li_meta", &[&la, &lb], || li_meta(&la, &lb));
+        // the extension parts alone, through ExtensionsMap::from_bytes (with and without the leading separator)
+        let tail = |s: &[u8]| -> Vec<u8> { let parts: Vec<&[u8]> = s.split(|c| *c == b'-' || *c == b'_').collect(); match parts.iter().position(|t| t.len() == 1) {
+            Some(p) => { let keep: usize = parts[..p].iter().map(|t| t.len() + 1).sum(); s[keep.saturating_sub(1).min(s.len())..].to_vec() } None => vec![] } };
+        let (ea, eb) = (tail(&a), tail(&b));
+        if !ea.is_empty() && !eb.is_empty() {
+            out.case("ext_meta", &[&ea, &eb], || ext_meta(&ea, &eb));
+            out.case("ext_meta", &[&ea[1..], &eb[1..]], || ext_meta(&ea[1..], &eb[1..]));
+        }
         // arbitrary (mostly ill-formed) strings: only case / separator changes
         let m = gen::mutate(rng, &a);
         let m2 = recase(rng, &m);
